@@ -285,7 +285,7 @@ func init() {
 	vf.Register(&vf.Check{
 		ID: "C09", Title: "EML parsing is total",
 		Run: func(r *vf.Run) {
-			r.SetRule("(a) every byte string of length <= 6 (thorough 7) over {a : SP CR LF ; = \" -} as whole input; (b) structure-aware mutants of 8 valid seeds (plain 8bit/QP/base64, alternative, mixed+attachment, mixed>related>alternative, two hand-written): every slot (header name, value, parameter name/value, boundary line, blank line, continuation) × 22 mutations — all single and all pairs of slot mutations (thorough: triples around Content-Type/Disposition); (c) for every seed and single mutant a reader failing at every offset (seeds) / 8 offsets (mutants), a one-byte reader, and the file entry point; (d) header-value grammars: every token string of length <= 4 (thorough 5) over an address alphabet {a @ b.example < > , : ; \" SP ( ) encoded-word} as From/To/Cc/Bcc/Reply-To/Content-ID value, over a media-type alphabet as Content-Type/-Transfer-Encoding/-Disposition value (top level and inside a multipart part), over a date alphabet as Date value; (e) size and depth sweeps: 16 structural elements (semicolons / parameters / RFC 2231 continuations in a header, nested multiparts closed and unclosed, parts, alternatives, continuation lines, header length, recipients, boundary length, header count, base64 / QP body lines, encoded-words) each repeated N times for N = 0..40, 63..65, 100, 127..129, 255..257, 1000, 1024, 4095..4097 (thorough: up to 100000); oracle: the call returns (no panic) within the watchdog; distinct by input bytes and mode")
+			r.SetRule("(a) every byte string of length <= 6 (thorough 7) over {a : SP CR LF ; = \" -} as whole input; (b) structure-aware mutants of 8 valid seeds (plain 8bit/QP/base64, alternative, mixed+attachment, mixed>related>alternative, two hand-written): every slot (header name, value, parameter name/value, boundary line, blank line, continuation) × 22 mutations — all single and all pairs of slot mutations (thorough: triples around Content-Type/Disposition); (c) for every seed and single mutant a reader failing at every offset (seeds) / 8 offsets (mutants), a one-byte reader, and the file entry point; (d) header-value grammars: every token string of length <= 4 (thorough 5) over an address alphabet {a @ b.example < > , : ; \" SP ( ) encoded-word} as From/To/Cc/Bcc/Reply-To/Content-ID value, over a media-type alphabet as Content-Type/-Transfer-Encoding/-Disposition value (top level and inside a multipart part), over a date alphabet as Date value; (e) size and depth sweeps: 16 structural elements (semicolons / parameters / RFC 2231 continuations in a header, nested multiparts closed and unclosed, parts, alternatives, continuation lines, header length, recipients, boundary length, header count, base64 / QP body lines, encoded-words) each repeated N times for N = 0..40, 63..65, 100, 127..129, 255..257, 1000, 1024, 4095..4097 (thorough: up to 100000); oracle: the call returns (no panic) within the watchdog; distinct by input bytes and mode; (f) 45 header-field names (standard and common extension fields, whether or not the parser looks at them) × 31 numeric and degenerate values around the integer boundaries, at the top level and inside multipart parts, through EMLToMsgFromReader / FromString / FromFile")
 			r.Assume("termination is decided by a 30 s per-case watchdog (a bound, not a proof)")
 			dir := filepath.Join(os.Getenv("VERIF_WORK"), fmt.Sprintf("c09-%d", os.Getpid()))
 			_ = os.MkdirAll(dir, 0o755)
@@ -534,6 +534,37 @@ func init() {
 					})
 				}
 				r.Extra("header_value_inputs", nvals)
+			}
+			// (f) any header field with numeric and degenerate values: header names the parser may or may not look at
+			// (standard RFC 5322 / 2045 / 2183 / 3461 fields and common extension fields) × values around the integer
+			// boundaries, at the top level and inside a multipart part
+			{
+				names := []string{"Content-Length", "Lines", "MIME-Version", "Content-MD5", "Content-Description", "Content-Language", "Content-Location", "Content-Base", "Content-Duration",
+					"Message-ID", "In-Reply-To", "References", "Received", "Return-Path", "Sender", "Resent-Date", "Resent-From", "Resent-To", "Resent-Message-ID", "Keywords", "Comments",
+					"X-Priority", "Importance", "Priority", "Precedence", "X-Mailer", "User-Agent", "Organization", "List-Id", "List-Unsubscribe", "Auto-Submitted", "Disposition-Notification-To",
+					"Original-Recipient", "X-Spam-Score", "X-Originating-IP", "Expires", "Age", "Max-Forwards", "Content-Range", "Range", "Status", "X-UID", "X-Status", "Bytes", "X-Content-Length"}
+				vals := []string{"", "0", "-0", "1", "-1", "-41", "+1", "007", "2147483647", "2147483648", "-2147483648", "-2147483649", "4294967295", "4294967296", "9223372036854775807", "9223372036854775808",
+					"-9223372036854775808", "-9223372036854775809", "99999999999999999999999999", "1.5", "1e9", "0x10", "NaN", " 12 ", "12;q=1", "1,2", "abc", "-", "--1", "١٢", strings.Repeat("9", 400)}
+				type nv struct{ n, v string }
+				var cases []nv
+				for _, n := range names {
+					for _, v := range vals {
+						cases = append(cases, nv{n, v})
+					}
+				}
+				r.Parallel(len(cases), "C09 numeric header values", func(i int) {
+					s := newSlot()
+					c := cases[i]
+					top := []byte("Date: Mon, 02 Jan 2006 15:04:05 -0700\r\nFrom: a@b.example\r\nTo: c@d.example\r\nSubject: s\r\n" + c.n + ": " + c.v + "\r\nContent-Type: text/plain; charset=utf-8\r\nContent-Transfer-Encoding: quoted-printable\r\n\r\nbody text\r\n")
+					part := []byte("From: a@b.example\r\nTo: c@d.example\r\nSubject: s\r\n" + c.n + ": " + c.v + "\r\nContent-Type: multipart/mixed; boundary=xyz\r\n\r\n--xyz\r\nContent-Type: text/plain; charset=utf-8\r\n" + c.n + ": " + c.v +
+						"\r\n\r\nbody\r\n--xyz\r\nContent-Type: application/octet-stream\r\nContent-Disposition: attachment; filename=a.bin\r\n" + c.n + ": " + c.v + "\r\nContent-Transfer-Encoding: base64\r\n\r\ncmF3\r\n--xyz--\r\n")
+					for _, mode := range []int{0, 1, 4} {
+						exec(s, c09Case{Input: top, Mode: mode, What: "numeric-header/top/" + c.n})
+						exec(s, c09Case{Input: part, Mode: mode, What: "numeric-header/part/" + c.n})
+					}
+					r.Transition(vf.Hash("nh", c.n), c.v, vf.Hash("nh-done", c.n))
+				})
+				r.Extra("numeric_header_inputs", len(cases)*6)
 			}
 			// (e) size and depth sweeps: one structural element repeated N times, N = 0..40 and powers beyond
 			{
